@@ -168,8 +168,11 @@ def run(ctx):
                     for t in n.targets:
                         if isinstance(t, ast.Attribute) and dotted(t.value) == "self":
                             hist.add(t.attr)
+        # methods that assembler_callback calls unconditionally on self (self.reset()) re-initialise on every assembly as well
+        delegated = {norm_src(st.value.func)[5:] for st in ac.body if isinstance(st, ast.Expr) and isinstance(st.value, ast.Call) and norm_src(st.value.func).startswith("self.")
+                     and norm_src(st.value.func)[5:] in c2.methods}
         for a in sorted(hist):
-            sts = [s for s in c2.stores.get(a, []) if s.method == "assembler_callback"]
+            sts = [s for s in c2.stores.get(a, []) if s.method == "assembler_callback" or s.method in delegated]
             C = f"{c2.rel}:{c2.qual}.assembler_callback"
             for s in sts:
                 if _once_guard(s.guards):
@@ -195,14 +198,20 @@ def run(ctx):
                 m = c2.methods.get(mname)
                 if m is None:
                     continue
-                written = {t.attr for n in walk_no_nested(m) for t in (n.targets if isinstance(n, ast.Assign) else []) if isinstance(t, ast.Attribute) and dotted(t.value) == "self"} & g
+                def writes_of(mm):
+                    return {t.attr for n in walk_no_nested(mm) for t in (n.targets if isinstance(n, ast.Assign) else []) if isinstance(t, ast.Attribute) and dotted(t.value) == "self"}
+                written = writes_of(m)
+                for st_ in m.body:      # self.reset(): what the called method writes is written here too
+                    if isinstance(st_, ast.Expr) and isinstance(st_.value, ast.Call) and norm_src(st_.value.func).startswith("self.") and norm_src(st_.value.func)[5:] in c2.methods:
+                        written |= writes_of(c2.methods[norm_src(st_.value.func)[5:]])
+                written &= g
                 C = f"{c2.rel}:{c2.qual}.{mname}"
                 if not written:
                     continue
                 if written == g:
                     rep.ok("C24.R6", C, f"tracking fields {sorted(g)} of `{qm}` are (re)initialised together")
                 else:
-                    st = next(n for n in walk_no_nested(m) if isinstance(n, ast.Assign) and any(isinstance(t, ast.Attribute) and t.attr in written for t in n.targets))
+                    st = next((n for n in walk_no_nested(m) if isinstance(n, ast.Assign) and any(isinstance(t, ast.Attribute) and t.attr in written for t in n.targets)), m.body[0])
                     rep.bad("C24.R6", C, st, f"`{mname}` re-initialises {sorted(written)} but not {sorted(g - written)}, although `{qm}` updates them as one tracking state: after "
                             f"re-assembly the fields disagree (a quadrant reset with a kept turn counter counts a spurious transition)", f"{c2.rel}:{st.lineno}")
     # ---- R5 (shared with C14.R7a): a restart re-runs assemble; markers created by the first assembly change the layout
